@@ -1,3 +1,4 @@
+import json
 from . import hubprops
 from .. import scenarios
 
@@ -25,6 +26,14 @@ def replay(path):
         entry, module_id, logger, daemon, multi, name, tc = r["args"]
         if v2.get("multi") != int(multi) or v2.get("daemon") != int(daemon) or v2.get("logger") != int(logger):
             viol.append({"signature": rp["signature"], "replay": rp})
+        return {"level": "model_checking", "coverage": {}, "violations": viol}
+    if rp.get("kind") == "ident":
+        from .. import engine
+        with engine.Quiet():
+            _, bad = _ident_case((0, rp["behaviour"], False))
+        for sig, detail in bad:
+            engine.say(f"replay: {sig}: {detail}")
+        viol = [{"signature": sig, "replay": rp} for sig, _ in bad if sig.startswith("C06/")]
         return {"level": "model_checking", "coverage": {}, "violations": viol}
     return hubprops.replay("C06", path)
 
@@ -143,4 +152,126 @@ def run(tier, seed):  # noqa: F811
     res["coverage"]["traces_validated_against_impl"] += n
     res["coverage"]["explanation"] += ("; every option combination through Client.connect and client_context is executed with a real Client: the CONNECT_V2 "
                                        "frame the manager reads, the CLIENT_INFO it publishes and the id adopted from the ACK must be what the caller named")
+    return res
+
+
+# ------------------------------------------------------------------------------------------------
+# the identity life cycle of ONE client object (spec/ClientIdent.tla): connect, disconnect, loss of the
+# connection, connect again - every request names the id the caller asked for, the id is learnt from the ACK
+# ------------------------------------------------------------------------------------------------
+def _ident_case(args):
+    tid, beh, timecode = args
+    from ..hub import Hub
+    from .. import scenarios as S
+    h = Hub(timecode=timecode)
+    bad = []
+    c = None
+    try:
+        import pyrtma.client as C
+        import pyrtma.exceptions as E
+        nother = 0
+        for k, e in enumerate(beh):
+            a = e["a"]
+            n0 = len(h.events)
+            if a == "Make":
+                c = C.Client(module_id=e["asked"], timecode=timecode, name="")
+                asked = e["asked"]
+            elif a == "Connect":
+                try:
+                    c.connect("127.0.0.1:7111")
+                    h.run_until_quiet()
+                except Exception as ex:  # noqa
+                    bad.append((f"C06/ShouldAccept/client:reconnect:{type(ex).__name__}", f"step {k}: connect() of a client made with module_id={asked} failed"))
+                    break
+                evs = h.events[n0:]
+                req = [ev["in"] for ev in evs if ev.get("a") == "Svc" and ev.get("in", {}).get("k") == "f" and ev["in"]["t"] in (4, 13)]
+                want = e["exp"]
+                if not req or req[0]["src"] != want["req"]:
+                    bad.append(("C06/OptionNotHonoured/id:reconnect", f"step {k}: the CONNECT request named id {req[0]['src'] if req else None}, the caller asked for {want['req']}"))
+                if c.module_id != want["id"]:
+                    bad.append(("C06/AckIdMismatch/client:reconnect", f"step {k}: client reports id {c.module_id}, the manager assigned {want['id']}"))
+                ids = sorted(m.mod_id for m in h.mgr.modules.values())
+                if ids.count(c.module_id) != 1:
+                    bad.append(("C06/AckIdMismatch/client:reconnect", f"step {k}: client id {c.module_id} is not held by exactly one module at the manager ({ids})"))
+            elif a == "Disconnect":
+                c.disconnect()
+                h.run_until_quiet()
+            elif a == "Lose":
+                end = c._sock.end
+                end.inbuf.clear()
+                end.fin_in = True               # the peer went away ...
+                try:
+                    c.read_message(0)
+                    bad.append(("C08/LossNotReported", f"step {k}: read_message on a closed connection returned"))
+                except E.ConnectionLost:
+                    pass
+                end.close()                     # ... and the manager learns that this end is gone, too
+                h.run_until_quiet()
+            elif a == "OtherJoins":
+                name = f"o{nother}"
+                nother += 1
+                h.open(name)
+                h.send(name, S.con(0))
+                h.run_until_quiet()
+                ids = sorted(m.mod_id for m in h.mgr.modules.values())
+                if e["exp"]["id"] not in ids:
+                    bad.append(("ClientIdent/drift:other-id", f"step {k}: expected the other module to get {e['exp']['id']}, manager holds {ids}"))
+            if h.crashed:
+                bad.append(("C03/Crash", f"step {k}: manager died"))
+                break
+    finally:
+        try:
+            if c is not None and c.connected:
+                c.disconnect()
+        except Exception:
+            pass
+        if c is not None:
+            c._connected = False
+        h.close()
+    return tid, bad
+
+
+def ident_half(tier: str, seed: int):
+    from .. import engine, tlc
+    mc = engine.model_check("ClientIdent", "ClientIdent.cfg", timeout=600)
+    if mc["violation"]:
+        raise tlc.TlcError("ClientIdent violated: " + mc["violation"])
+    g = tlc.run_tlc("ClientIdent", "ClientIdent_Gen.cfg", workers=1, timeout=600)      # exhaustive: every behaviour of the bound
+    if g["error"]:
+        raise tlc.TlcError("ClientIdent export failed: " + str(g["error"]))
+    behs = {json.dumps(b, sort_keys=True): b for b in tlc.behaviours(g["out"])}
+    behs = [behs[k] for k in sorted(behs)]
+    if len(behs) < 50:
+        raise tlc.TlcError(f"ClientIdent exported only {len(behs)} behaviours")
+    import multiprocessing as mp
+    items = [(i, b, bool(i % 2)) for i, b in enumerate(behs)]
+    with engine.Quiet():
+        with mp.get_context("fork").Pool(12) as pool:
+            res = pool.map(_ident_case, items, chunksize=4)
+    viol, drift = [], []
+    for tid, bad in res:
+        for sig, detail in bad:
+            (viol if sig.startswith("C06/") else drift).append((sig, detail, behs[tid]))
+    return mc, len(behs), viol, drift
+
+
+_run06 = run
+
+
+def run(tier, seed):  # noqa: F811
+    res = _run06(tier, seed)
+    mc, n, viol, drift = ident_half(tier, seed)
+    seen = set()
+    for sig, detail, b in viol:
+        if sig not in seen:
+            seen.add(sig)
+            res["violations"].append({"signature": sig, "replay": {"kind": "ident", "behaviour": b, "detail": detail}})
+    res["coverage"]["states"] += mc.get("distinct", 0)
+    res["coverage"]["transitions"] += mc.get("states", 0)
+    res["coverage"]["client_identity_behaviours_replayed"] = n
+    res["coverage"]["traces_validated_against_impl"] += n
+    if drift:
+        res["notes"].append(f"client identity life cycle (ClientIdent.tla): {len(drift)} difference(s) outside C06: {sorted({s for s, _, _ in drift})[:6]}")
+    res["coverage"]["explanation"] += ("; ClientIdent.tla (connect / disconnect / connection loss / connect again of one client object) model checked, every "
+                                       "behaviour of the bound replayed on a real Client against the real manager")
     return res
